@@ -91,10 +91,29 @@ func (r *result) coq() string {
 		if f.proto < 0 {
 			p = fmt.Sprintf("(%d)", f.proto)
 		}
-		fmt.Fprintf(&sb, "Fr %s %d 0x1%s 0x1%s", p, f.chunk, hex.EncodeToString(f.b), hexDigits(f.obs))
+		fmt.Fprintf(&sb, "Fr %s %d %s 0x1%s%%uint63", p, f.chunk, int63List(f.b), hexDigits(f.obs))
 	}
 	fmt.Fprintf(&sb, "] %s %s %d %d [%s;%s;%s] \"%s\"%%string", zl(r.total), zl(r.udp), r.echo4, r.outcome,
 		netx.B(r.probes[0]), netx.B(r.probes[1]), netx.B(r.probes[2]), strings.ReplaceAll(r.note, "\"", "'"))
+	return sb.String()
+}
+
+// int63List: the bytes as a Coq list of primitive integers, seven bytes per integer behind a leading 1
+func int63List(b []byte) string {
+	var sb strings.Builder
+	sb.WriteByte('[')
+	for i := 0; i < len(b); i += 7 {
+		j := i + 7
+		if j > len(b) {
+			j = len(b)
+		}
+		if i > 0 {
+			sb.WriteByte(';')
+		}
+		sb.WriteString("0x1")
+		sb.WriteString(hex.EncodeToString(b[i:j]))
+	}
+	sb.WriteString("]%uint63")
 	return sb.String()
 }
 
